@@ -71,6 +71,17 @@ theorem mainField_isSet (p : Param V) : (mainField p).default.isSet = p.hasDefau
   | none => rfl
   | some d => cases d <;> rfl
 
+/-- a value default (anything that is not a plain function: numbers, dataclass instances,
+    `functools.partial` objects, config instances) is the field's default itself — never a factory,
+    never called; only a plain function becomes the default factory -/
+theorem c20_value_default_kept (p : Param V) (v : V) (n : Bool) (h : p.dflt = some (.value v n)) :
+    (mainField p).default = .value v n := by
+  simp [mainField, mainDefault, h]
+
+theorem c20_function_default_is_factory (p : Param V) (fn r : V) (h : p.dflt = some (.func fn r)) :
+    (mainField p).default = .factory r := by
+  simp [mainField, mainDefault, h]
+
 theorem mainFields_eq (sig : List (Param V)) : mainFields sig = (sortedSig sig).map mainField := by
   unfold mainFields sortedSig
   rw [stableSort_eq_partition, List.filter_map, List.filter_map, List.map_append]
